@@ -142,7 +142,8 @@ class Gen:
         # an idle window far longer than the episode (one hour) must change nothing: no key is idle, least of all one
         # that the new owner has not read yet
         idle = r.choice([0, 0, 3600000])
-        yield "c.new n=%d r=%d w=1 rq=1 rr=%d parts=%d tsize=%d%s" % (n, R, r.choice([0, 1]), parts, r.choice([512, 4096]), " idle_ms=%d" % idle if idle else "")
+        W = r.choice([1, 1, 2])       # WriteQuorum 2: a Put that cannot reach a backup owner is refused (not acknowledged)
+        yield "c.new n=%d r=%d w=%d rq=1 rr=%d parts=%d tsize=%d%s" % (n, R, W, r.choice([0, 1]), parts, r.choice([512, 4096]), " idle_ms=%d" % idle if idle else "")
         alive = list(range(n))
         keys = [hx(b"f%d" % i) for i in range(10)]
         ver = [0]
